@@ -320,6 +320,13 @@ class NetCDFWrite(IOWrite):
         if array.dtype.kind == "U":
             array = array.astype("S")
 
+        # Make the item size equal to the length of the longest string,
+        # which is the size of the string-length netCDF dimension. (A
+        # numpy string array may be wider than its longest element.)
+        strlen = max([len(x) for x in array.flat] + [1])
+        if array.dtype.itemsize != strlen:
+            array = array.astype(f"S{strlen}")
+
         array = np.array(tuple(array.tobytes().decode("ascii")), dtype="S1")
 
         array.resize(original_shape + (array.size // original_size,))
@@ -2922,7 +2929,7 @@ class NetCDFWrite(IOWrite):
             #                array = array.flatten()
             array = self._numpy_compressed(array)
 
-            strlen = len(max(array, key=len))
+            strlen = max(len(max(array, key=len, default="")), 1)
 
             data = self._convert_to_char(data)
             ncdim = self._string_length_dimension(strlen)
